@@ -102,6 +102,11 @@ def check(ctx):
     for f in rem.functions.values():
         if f.name.startswith("_"):
             continue
+        import re as _re_mod
+        if not hasattr(_re_mod, f.name):
+            # "gives what the same re function returns": a function without a namesake in re is outside the statement
+            ctx.note(f"SIB-17: regex.{f.name} has no namesake in the re module; not judged")
+            continue
         n_re += 1
         re_calls = [c for _, c in calls_in(f) if (repo.dotted(f, c.func) or "").startswith("re.")]
         names = {repo.dotted(f, c.func) for c in re_calls}
@@ -174,7 +179,9 @@ def check(ctx):
             continue
         member = getattr(_dt.datetime, f.name, None)
         if member is None:
-            raise AnalysisError(f"dt.{f.name} has no datetime.datetime counterpart; add a named exception")
+            # an extractor the statement does not name and datetime has no attribute for: nothing to compare it with
+            ctx.note(f"SIB-18: dt.{f.name} has no datetime.datetime counterpart and is not one of the statement's extractors; not judged")
+            continue
         want = f"{var}.{f.name}()" if callable(member) else f"{var}.{f.name}"
         ok = norm(body) == want
         ctx.ob("SIB-18", f, norm(lam), lam, ok, f"extracts datetime.{f.name}" if ok else
